@@ -165,8 +165,37 @@ def cmd_detect(tag, tier="quick"):
         shutil.rmtree(os.path.join(ROOT, "work", "alt", re.sub(r"[^A-Za-z0-9]+", "_", wt).strip("_")), ignore_errors=True)
 
 
+def cmd_report():
+    """Markdown table of every seeded change: what it breaks, what it needs, confirmed?, caught by which tier."""
+    rows = []
+    for tag in sorted(os.listdir(os.path.join(ROOT, "seeded"))):
+        mp = os.path.join(ROOT, "seeded", tag, "meta.json")
+        if not os.path.exists(mp):
+            continue
+        m = json.load(open(mp))
+        c = m.get("confirmed", {})
+        det = m.get("detection", {})
+        def cell(t):
+            d = det.get(t)
+            if not d:
+                return "not run"
+            if d.get("detected"):
+                return "caught (%s%s)" % (d.get("replay_kind") or "violation", ", no-failing-input-found" if d.get("no_failing_input_found") else "")
+            return "MISSED" if d.get("exit") == 0 else "exit %s" % d.get("exit")
+        mech = (m.get("mechanism") or "").replace("|", "/").replace("\n", " ")
+        needs = (m.get("needs") or "").replace("|", "/").replace("\n", " ")
+        rows.append("| %s | %s | %s | %s | %s | %s |" % (tag, ", ".join(m.get("files", []))[:80], mech[:230], needs[:200],
+                                                       "yes" if c.get("acceptable") else "NO", cell("quick") + (" / thorough: " + cell("thorough") if "thorough" in det else "")))
+    print("| id | files | mechanism | needs to manifest | confirmed | check result (quick) |")
+    print("|---|---|---|---|---|---|")
+    print("\n".join(rows))
+
+
 if __name__ == "__main__":
     a = sys.argv[1:]
+    if a[0] == "report":
+        cmd_report()
+        sys.exit(0)
     if a[0] == "import":
         cmd_import(*a[1:])
     elif a[0] == "validate":
